@@ -92,6 +92,7 @@ package sessiontracker
 //@ pred ValidRUL(rul) := rul.Source != nil && rul.PID > 0 && rul.CredUserID != ""
 
 //@ func (*sessionTracker).RemoteLogin
+//@   atomic mu owns user
 //@   requires TrackerInv(o)
 //@   ensures[inv] result == nil ==> TrackerInv(o)
 //@   ensures[invalid] !ValidRUL(rul) ==> result != nil && len(out) == old(len(out)) && kept_objs_old("F!*") && kept_old("M!*")
@@ -116,6 +117,7 @@ package sessiontracker
 //@ pred Nothing(o) := len(out) == old(len(out)) && kept_objs_old("F!*") && kept_old("M!*") && kept_old("S!*")
 
 //@ func (*sessionTracker).AuditdEvent
+//@   atomic mu owns user
 //@   requires TrackerInv(o) && event != nil && alloc(event)
 //@   ghost g_disp := ite(!NoSess(event) && has(SMap(o), event.Session) && event.Type == auparse.AUDIT_CRED_DISP, upd(g_disp, event.Session, true),
 //@   |                 ite(Opens(o, event), upd(g_disp, event.Session, false), g_disp))
@@ -151,6 +153,7 @@ package sessiontracker
 //@ pred Stale(u, t) := !u.hasRUL && u.added < t
 
 //@ func (*sessionTracker).DeleteUsersWithoutLoginsBefore
+//@   atomic mu owns user
 //@   requires TrackerInv(o)
 //@   ensures[inv] TrackerInv(o)
 //@   ensures[dom] forall sid string :: has(SMap(o), sid) <==> (old(has(SMap(o), sid)) && !old(Stale(SMap(o)[sid], t)))
@@ -161,6 +164,7 @@ package sessiontracker
 //@   loop Iterate#1 invariant[frame] len(out) == old(len(out)) && kept("F!*") && kept("S!*") && kept("M!map<int>common.RemoteUserLogin!*") && kept("M!map<string>^sessiontracker.user!val*") && kept("G!out*") && kept("G!g_*")
 
 //@ func (*sessionTracker).DeleteRemoteUserLoginsBefore
+//@   atomic mu owns user
 //@   requires TrackerInv(o)
 //@   ensures[inv] TrackerInv(o)
 //@   ensures[dom] forall pid int :: has(PMap(o), pid) <==> (old(has(PMap(o), pid)) && !(old(PMap(o)[pid].Source.LoggedAt) < t))
